@@ -180,7 +180,7 @@ def _mirsym():
         spec=sc.MixedFinalizeSpec(), stubs=["fast_build_string_column / IntegerColumn::new_boxed / FloatColumn::new_boxed / Column::null -> recorders", "ToString for numbers -> opaque"])
     add("C07.a/colbuf_compaction", "C07", "mirsym", Q,
         "the append sequences InnerLocustDB::compact performs on a fresh ColumnBuffer (one push per partition: non-nullable, nullable with its null map, all-NULL): NULL rows of every part stay NULL, values stay values",
-        cbfns, bounds="quick: 1-2 parts of 1-2 rows from {ints, ints+map, nulls, floats+map, floats}; thorough: up to 3 parts incl. 9-row parts; values and null maps symbolic",
+        cbfns, bounds="quick: 1-2 parts of 1-2 rows from {ints, ints+map, nulls, floats+map, floats}; thorough: the same 1-2 part sequences plus single 3/7/9-row parts (three-part sequences did not finish within 15 minutes: outside the claim); values and null maps symbolic",
         spec=sc.ColBufC07())
     add("C13.a/colbuf_padding", "C13", "mirsym", Q,
         "a column first seen after k rows is NULL for the first k rows; a column not mentioned by a batch is NULL for that batch (push_nulls padding)",
